@@ -24,7 +24,7 @@ ASSUMPTIONS = ["Jinja evaluates the SF-core expression fragment as integer arith
                "not compared (count reported as distribution.unsupported_estimate)"]
 
 
-DIRECTED = [S.stream_first_statement_names, S.stream_first_statement_names, S.stream_late_forward_reference, S.stream_var_before_definition, S.stream_var_before_definition, S.stream_once_hidden,
+DIRECTED = [S.stream_dual_forward_underfilled, S.stream_first_statement_names, S.stream_first_statement_names, S.stream_late_forward_reference, S.stream_var_before_definition, S.stream_var_before_definition, S.stream_once_hidden,
             S.stream_idle_middle, S.stream_shared_nick_forward, S.stream_once_cluster]
 
 
